@@ -90,25 +90,37 @@ fn main() {
     for own in [false, true] {
         for partner in [false, true] {
             for linked in [false, true] {
-                let (a, b) = (Terminal::<()>::new(), Terminal::<()>::new());
-                if linked {
-                    connect(&a, &b);
+                for (ta, tb) in [(10i64, 20i64), (20, 10), (10, 10), (i64::MAX, i64::MIN), (i64::MIN, i64::MAX)] {
+                    let (a, b) = (Terminal::<()>::new(), Terminal::<()>::new());
+                    if linked {
+                        connect(&a, &b);
+                    }
+                    let (sa, sb) = (State::new_raw(3.0, 5.0, 7.0), State::new_raw(11.0, 13.0, 17.0));
+                    if own {
+                        <Terminal<()> as Settable<Datum<State>, ()>>::set(&mut a.borrow_mut(), Datum::new(Time(ta), sa)).unwrap();
+                    }
+                    if partner {
+                        <Terminal<()> as Settable<Datum<State>, ()>>::set(&mut b.borrow_mut(), Datum::new(Time(tb), sb)).unwrap();
+                    }
+                    let mean = State::new_raw(7.0, 9.0, 12.0);
+                    let got_a = <Terminal<()> as Getter<State, ()>>::get(&a.borrow()).unwrap();
+                    let want_a = match (own, partner && linked) {
+                        (false, false) => None,
+                        (true, false) => Some(Datum::new(Time(ta), sa)),
+                        (false, true) => Some(Datum::new(Time(tb), sb)),
+                        (true, true) => Some(Datum::new(Time(ta.max(tb)), mean)),
+                    };
+                    assert_eq!(got_a, want_a);
+                    let got_b = <Terminal<()> as Getter<State, ()>>::get(&b.borrow()).unwrap();
+                    let want_b = match (partner, own && linked) {
+                        (false, false) => None,
+                        (true, false) => Some(Datum::new(Time(tb), sb)),
+                        (false, true) => Some(Datum::new(Time(ta), sa)),
+                        (true, true) => Some(Datum::new(Time(ta.max(tb)), mean)),
+                    };
+                    assert_eq!(got_b, want_b);
+                    count += 2;
                 }
-                if own {
-                    <Terminal<()> as Settable<Datum<State>, ()>>::set(&mut a.borrow_mut(), Datum::new(Time(10), State::new_raw(3.0, 5.0, 7.0))).unwrap();
-                }
-                if partner {
-                    <Terminal<()> as Settable<Datum<State>, ()>>::set(&mut b.borrow_mut(), Datum::new(Time(20), State::new_raw(11.0, 13.0, 17.0))).unwrap();
-                }
-                let got = <Terminal<()> as Getter<State, ()>>::get(&a.borrow()).unwrap();
-                let want = match (own, partner && linked) {
-                    (false, false) => None,
-                    (true, false) => Some(Datum::new(Time(10), State::new_raw(3.0, 5.0, 7.0))),
-                    (false, true) => Some(Datum::new(Time(20), State::new_raw(11.0, 13.0, 17.0))),
-                    (true, true) => Some(Datum::new(Time(20), State::new_raw(7.0, 9.0, 12.0))),
-                };
-                assert_eq!(got, want);
-                count += 1;
             }
         }
     }
